@@ -101,7 +101,34 @@ def norm_cmp(atom, value):
         op = NEG[op]
     if a[0] == "int" and b[0] != "int":
         op, a, b = FLIP[op], b, a
+    # `x + k OP c` is `x OP c - k` (the overflow of a checked addition is a way of its own, not this one)
+    if b[0] == "int":
+        base, off = _linear(a)
+        if off and b[1] - off >= 0:
+            a, b = base, ("int", b[1] - off)
     return (op, a, b)
+
+
+def _linear(t):
+    """(x, k) with t = x + k for an integer constant k (through checked and unchecked additions / subtractions)."""
+    off = 0
+    while isinstance(t, tuple) and t:
+        if t[0] == "cast" and t[1] in ("IntToInt",):
+            break
+        if t[0] == "field" and t[2] == "0" and isinstance(t[1], tuple) and t[1] and t[1][0] == "bin" and t[1][1].endswith("WithOverflow"):
+            t = t[1]
+        if t[0] == "bin" and t[1] in ("Add", "AddWithOverflow", "AddUnchecked") and t[3][0] == "int":
+            off += t[3][1]
+            t = t[2]
+        elif t[0] == "bin" and t[1] in ("Add", "AddWithOverflow", "AddUnchecked") and t[2][0] == "int":
+            off += t[2][1]
+            t = t[3]
+        elif t[0] == "bin" and t[1] in ("Sub", "SubWithOverflow", "SubUnchecked") and t[3][0] == "int":
+            off -= t[3][1]
+            t = t[2]
+        else:
+            break
+    return t, off
 
 
 def holds_for(op, n, k):
